@@ -57,6 +57,15 @@ def _dictator_branch(ctx, f, scope_node, label):
         # untied: (ranking[0],)
         other = [dv for s_, dv in astx.defs_of(f.node, T) if dv is not None and not (isinstance(dv, ast.Call))] if T else []
         okt = okt and len(other) == 1 and astx.u(other[0]) == f"({rb}.ranking[0],)"
+        # ... exactly when the first position holds more than one candidate: no further condition may suppress the draw
+        Ng = Normalizer(f.node, inline=False, int_atoms=lambda a: True)
+        extra = literals(Ng.conj(astx.path_condition(f.node, tb[0], pm))) - literals(Ng.conj(astx.path_condition(f.node, d.call, pm)))
+        extra = {l for l in extra if l != f"truthy({rb}.ranking)"}
+        want_tb = literals(Normalizer(None, inline=False, int_atoms=lambda a: True).conj([(ast.parse(f"len({rb}.ranking[0]) > 1", mode="eval").body, True)]))
+        if extra != want_tb:
+            okt = False
+            ctx.violated(f, tb[0], f"{label}: a tied first place is always broken at random",
+                         f"the random tiebreak runs under {sorted(extra)}; documented: whenever {sorted(want_tb)} (otherwise the winner is taken from a set in iteration order)")
     ctx.check(good and okt, f, tb[0] if tb else d.call, f"{label}: winner = first position of the drawn ballot; tied first place broken uniformly at random", "",
               "the winner is not taken from the drawn ballot's first position with a random tiebreak on ties")
     return T
